@@ -87,6 +87,20 @@ CHECKS = {
              "chain (single parent, no merge), messages/authors/timestamps are not modelled.",
         tech="Lean 4 invariant proofs + differential correspondence + git CLI audit",
         ref="5/C09"),
+    "C10": dict(
+        text="The index machinery (AutoIndexManager counters/threshold/reset, MemoryIndex per-etag cache, choice "
+             "between the naive and the index-based iteration in Store.iter_with_filter) is modelled as a state "
+             "machine parametric in the two evaluators and proved transparent for every history of queries and writes "
+             "and every threshold, by induction, under the explicit proviso that check_from_indexes agrees with check "
+             "on the files at hand; full_statement_is_false shows the proviso cannot be dropped (recorded finding "
+             "KF-C10-multi-component). Every query answer of generated histories (each filter repeated past the "
+             "threshold, filters interleaved, writes in between, thresholds 0/1/5) is compared with the Lean model of "
+             "direct evaluation on the current contents, at the store API and through REPORT on both front ends.",
+        note="partial: the agreement of the two evaluators (match_indexes family vs match) is hypothesis AgreeOn, "
+             "validated by correspondence, not proved; the naive evaluator's model is the one proved against RFC 4791 "
+             "in C11; unparseable stored files are not generated.",
+        tech="Lean 4 state-machine proof (history induction) under an evaluator-agreement proviso + differential monitor",
+        ref="5/C10"),
     "C11": dict(
         text="The four RFC 4791 section 9.9 functions (apply_time_range_vevent/vtodo/vjournal/vfreebusy) are TRANSLATED "
              "from /repo's source on every run (Except-monad Lean preserving Python's evaluation order) and proved equal "
